@@ -6,7 +6,7 @@ from collections import Counter
 import framework as F
 
 ID = "C08"
-GEN = ["Trace", "Infra"]
+GEN = ["Trace", "Infra", "Interpolation"]
 LEVEL = "proof"
 TECHNIQUE = ("Coq proof: induction over the spike history of a per-synapse model of the trainers built on the translated "
              "trace kernels (geometric-trace lemma, pair-sum identities), tied to the code by translation of the kernels and "
@@ -31,8 +31,10 @@ LEVEL_NOTE = ("Trusted: Coq kernel + stdlib real axioms (incl. classic through R
               "correspondence only; RecordTensor ring semantics (C01), time-indexed select (C02), synapse delayed reads "
               "(C04/C06), unfolding of convolution inputs (C05) are taken at their proved/validated meaning (history list, value "
               "k steps back, fill 0; the unfolded presynaptic trains are read from the implementation). Not proved: "
-              "floating-point rounding; off-grid delays (interpolated views; there the delayed and the delay-frozen trainer "
-              "modes genuinely differ - continuous vs rounded-up arrival - and neither is modelled); amax batch reduction and "
+              "floating-point rounding; delays BETWEEN two steps are modelled (observation read = ceiling, reducers "
+              "interpolate with the generated interp_expdecay) and compared with the implementation, but no theorem and no "
+              "oracle covers them: there the delayed and the delay-frozen trainer modes genuinely differ (continuous vs "
+              "rounded-up arrival) and the property does not say which is meant; amax batch reduction and "
               "per-sample signals with a non-sum reduction are covered by correspondence only (no per-sample statement exists "
               "for them); theorems are per synapse, the sum over the positions sharing a convolution weight is done by the "
               "harness.")
@@ -64,6 +66,22 @@ def default_hp(sp=1, sq=-1, rng=None):
 
 
 # ------------------------------------------------------------------ which synapses a connection has
+def resolve_delay(d_steps, dt, tol=0.0):
+    """delay given in steps (possibly fractional) -> (k, sample_at | None), computed with the float operations of
+    RecordTensor.select: the observation read is k steps back; off the grid the reducers interpolate at sample_at"""
+    time = float(d_steps) * dt
+    shift = time / dt
+    shiftr = float(round(shift))          # round half to even, like torch.round
+    if abs(dt * shiftr - time) <= tol:
+        return int(shiftr), None
+    return int(math.ceil(shift)), dt - dt * (shift % 1)
+
+
+def kd(case, d_steps):
+    k, off = resolve_delay(d_steps, case["dt"])
+    return {"k": k, "off": off}
+
+
 def column(arr, j):
     """[T][B][n] -> [T][B] for element j"""
     return [[sb[j] for sb in st] for st in arr]
@@ -78,18 +96,18 @@ def entries(case, impl=None):
     if case["conn"] == "dense":
         for o in range(n_out):
             for i in range(n_in):
-                out.append({"label": [o, i], "idx": o * n_in + i, "k": d[o][i] if d is not None else 0,
+                out.append({"label": [o, i], "idx": o * n_in + i, **kd(case, d[o][i] if d is not None else 0),
                             "pairs": [(column(case["pre"], i), column(case["post"], o))]})
     elif case["conn"] == "direct":
         for i in range(n_in):
-            out.append({"label": [i, i], "idx": i, "k": d[i] if d is not None else 0,
+            out.append({"label": [i, i], "idx": i, **kd(case, d[i] if d is not None else 0),
                         "pairs": [(column(case["pre"], i), column(case["post"], i))]})
     elif case["conn"] == "lateral":
         # the diagonal of a lateral connection is masked (no synapse from a neuron onto itself): not judged
         for o in range(n_out):
             for i in range(n_in):
                 if o != i:
-                    out.append({"label": [o, i], "idx": o * n_in + i, "k": d[o][i] if d is not None else 0,
+                    out.append({"label": [o, i], "idx": o * n_in + i, **kd(case, d[o][i] if d is not None else 0),
                                 "pairs": [(column(case["pre"], i), column(case["post"], o))]})
     elif case["conn"] == "conv":
         # the synapse of a convolutional connection receives the unfolded input (N = C*kH*kW rows, L output positions):
@@ -107,7 +125,7 @@ def entries(case, impl=None):
                     pre = [[sb[n][l] for sb in st] for st in sp]
                     post = column(case["post"], f * L + l)
                     pairs.append((pre, post))
-                out.append({"label": [f, n], "idx": f * N + n, "k": d[f][n] if d is not None else 0, "pairs": pairs})
+                out.append({"label": [f, n], "idx": f * N + n, **kd(case, d[f][n] if d is not None else 0), "pairs": pairs})
     return out
 
 
@@ -140,10 +158,16 @@ def gen_random(rng: random.Random):
     if tr in ("StableSTDP", "StableTripletSTDP") and rng.random() < 0.1 and tr == "StableSTDP":
         case["hp"]["lr_pre"] = 0.0          # allowed by the stable variants only (trace amplitude is 1)
     if kmax is not None:
+        offgrid = kmax >= 1 and rng.random() < 0.3       # delays between two steps: interpolated reads
+
+        def dly():
+            if offgrid and rng.random() < 0.7:
+                return rng.randint(1, kmax) - rng.choice([0.5, 0.25, 0.75])
+            return rng.randint(0, kmax)
         if conn == "direct":
-            case["delays"] = [rng.randint(0, kmax) for _ in range(n_in)]
+            case["delays"] = [dly() for _ in range(n_in)]
         else:
-            case["delays"] = [[rng.randint(0, kmax) for _ in range(n_in)] for _ in range(n_out)]
+            case["delays"] = [[dly() for _ in range(n_in)] for _ in range(n_out)]
     p = rng.choice([0.2, 0.5, 0.8])
     case["pre"] = [[[int(rng.random() < p) for _ in range(n_in)] for _ in range(B)] for _ in range(T)]
     case["post"] = [[[int(rng.random() < p) for _ in range(n_out)] for _ in range(B)] for _ in range(T)]
@@ -236,7 +260,7 @@ def q_float(x):
     return F.coq_float(float(x))
 
 
-def q_config(case):
+def q_config(case, off=None):
     hp = case["hp"]
     tr = case["trainer"]
     mode = "Cumulative" if case["mode"] == "cumulative" else "Nearest"
@@ -245,7 +269,7 @@ def q_config(case):
     fs = [case["dt"], hp["lr_post"], hp["lr_pre"], hp["tc_post"], hp["tc_pre"], hp["lr_post_triplet"],
           hp["lr_pre_triplet"], hp["tc_post_slow"], hp["tc_pre_slow"], hp["tc_elig"]]
     return (f"(mkConfig FN {tr} {mode} " + " ".join(q_float(x) for x in fs) +
-            f" {F.coq_bool(case['delayed'])} {dby} {red})")
+            f" {F.coq_bool(case['delayed'])} {dby} {red} {'None' if off is None else '(Some ' + q_float(off) + ')'})")
 
 
 def q_signal(case, t):
@@ -258,13 +282,13 @@ def q_signal(case, t):
     return f"(SigScalar FN {q_float(s)} {q_float(case.get('scale', 1.0))})"
 
 
-def q_case(case, k, pre, post):
+def q_case(case, k, pre, post, off=None):
     T, B = len(pre), case["B"]
     steps = []
     for t in range(T):
         pq = F.coq_list([f"({F.coq_bool(pre[t][b])}, {F.coq_bool(post[t][b])})" for b in range(B)])
         steps.append(f"({pq}, {q_signal(case, t)})")
-    return f"run_case {q_config(case)} {k}%nat {B}%nat {F.coq_list(steps)}"
+    return f"run_case {q_config(case, off)} {k}%nat {B}%nat {F.coq_list(steps)}"
 
 
 # ------------------------------------------------------------------ direct oracle: literal sums over spike pairs
@@ -313,6 +337,10 @@ def oracle_entry(case, ent):
     red = eff_reduction(case)
     rf = red_fn(red)
     k = ent["k"]
+    if ent.get("off") is not None:
+        # a delay between two steps: the delay-frozen mode rounds the arrival up to the next step, the delayed mode reads
+        # an exponentially interpolated trace; the property's "shifted by the delay" does not say which - not judged
+        return None
     AD = []
     for b in range(B):
         A, D = [0.0] * T, [0.0] * T
@@ -467,7 +495,7 @@ def evaluate(cases):
         sp = []
         for e in ents:
             sp.append((len(terms), len(e["pairs"])))
-            terms += [q_case(c, e["k"], pre, post) for (pre, post) in e["pairs"]]
+            terms += [q_case(c, e["k"], pre, post, e["off"]) for (pre, post) in e["pairs"]]
         spans.append((ents, sp))
     model = F.eval_terms(ID, HEADER, terms, shard=max(40, min(250, len(terms) // 48 + 1)))
     mismatches, oracle_fail = [], []
@@ -478,6 +506,10 @@ def evaluate(cases):
         if of is not None:
             oracle_fail.append({"case": c, "detail": of, "signature": signature(c, of)})
     return impl, mismatches, oracle_fail, len(terms)
+
+
+def _flat(x):
+    return [z for y in x for z in _flat(y)] if isinstance(x, list) else [x]
 
 
 def nontrivial(case):
@@ -519,7 +551,8 @@ def run(ctx):
         "evaluations": len(cases),
         "distinct_nontrivial": len({json.dumps(c, sort_keys=True) for c in cases if nontrivial(c)}),
         "rule": ("seeded random cells (6 trainers x 4 sign modes x 2 trace modes, dense/direct/lateral connections up to 3x3, "
-                 "batch <= 3, 1-9 steps, delays 0-3 steps in both trainer modes or no delay, sum/mean/amax reductions, scalar "
+                 "batch <= 3, 1-9 steps, delays 0-3 steps (a third of the delayed cells with delays between two steps) in both "
+                 "trainer modes or no delay, sum/mean/amax reductions, scalar "
                  "and per-sample signals) + small convolutional cells (kernels shared over <= 9 output positions, stride / "
                  "padding, delays, linear reductions) + EXHAUSTIVE pre/post histories of length <= %d on 1x1 cells for every trainer x "
                  "sign mode x trace mode%s; non-trivial = >= 2 steps with at least one pre and one post spike; distinct by "
@@ -533,6 +566,7 @@ def run(ctx):
         "trainer_distribution": dict(Counter(c["trainer"] for c in cases)),
         "mode_distribution": dict(Counter(c["mode"] for c in cases)),
         "delay_distribution": dict(Counter(("none" if c["kmax"] is None else "k<=%d" % c["kmax"]) + ("/delayed" if c["delayed"] else "/frozen") for c in cases)),
+        "offgrid_delay_cases": sum(1 for c in cases if c.get("delays") is not None and any(float(x) != int(x) for x in _flat(c["delays"]))),
         "conn_distribution": dict(Counter(c["conn"] for c in cases)),
         "reduction_distribution": dict(Counter(eff_reduction(c) for c in cases)),
         "signal_distribution": dict(Counter("none" if c.get("signal") is None else ("per-sample" if isinstance(c["signal"][0], list) else "scalar") for c in cases)),
